@@ -4,6 +4,7 @@ package mpx
 
 import (
 	"runtime"
+	"sync"
 	"sync/atomic"
 	"time"
 )
@@ -31,7 +32,22 @@ func VerifSetYield(seed uint64, probPermille uint32, sleep time.Duration) {
 // VerifYieldCount returns how many yields were taken.
 func VerifYieldCount() int64 { return verifYieldCount.Load() }
 
+// VerifSetPointSleep makes every pass through the named point sleep for d (0 removes it); used to
+// replay one specific interleaving deterministically.
+func VerifSetPointSleep(point string, d time.Duration) {
+	if d <= 0 {
+		verifPointSleep.Delete(point)
+		return
+	}
+	verifPointSleep.Store(point, d)
+}
+
+var verifPointSleep sync.Map
+
 func verifYield(point string) {
+	if d, ok := verifPointSleep.Load(point); ok {
+		time.Sleep(d.(time.Duration))
+	}
 	if !verifYieldOn.Load() {
 		return
 	}
